@@ -12,6 +12,7 @@ import (
 	"verif/lmdbx"
 
 	"verif/bucket"
+	"verif/hdr"
 	"verif/inst"
 	"verif/lsx"
 	"verif/props/loopp"
@@ -429,6 +430,16 @@ func RunConvergingFleet(q quietFleet, env *runner.Env, res *runner.Result) {
 		s.Note(x.Name, "APP BEGIN "+key)
 		_, err := lmdbx.Update(x.Env, func(txn *lmdb.Txn) error {
 			if q.Native {
+				// a native application stamps a change with the time of the change: never below the version it
+				// overwrites (which may have arrived from another instance meanwhile)
+				if dbi, err := txn.OpenDBI("d", 0); err == nil {
+					if cur, err := txn.Get(dbi, []byte(key)); err == nil {
+						if h, _, err := hdr.Read(cur); err == nil && h.TS >= ts {
+							ts = h.TS + 1000
+						}
+					}
+				}
+				last[id] = ts
 				return inst.NativePut(txn, "d", []byte(key), ts, del, []byte(val))
 			}
 			if del {
